@@ -31,7 +31,8 @@ META = {
         "degree of polynomial ambiguity; a pump only counts when the "
         "continuation after the loop fails for every number of iterations), "
         "plus structural rules on the substitution and scanning loops. "
-        "Decides the growth class of matching time, not its constant."),
+        "Decides the growth class of matching time, not its constant."
+        ' Also: reduce_whitespace repeats its substitutions until stable whenever they feed each other (decided on the constant patterns), fix-point loops compare one pass with the next (tri-state), scan cursors advance on every path (path-sensitive).'),
     'assumptions': [
         "sre is a backtracking matcher whose work is bounded by the number of "
         "distinct paths of the position automaton on the input",
